@@ -153,6 +153,33 @@ Proof.
   destruct Hc as [<-|Hc]; [exact Hc0|]. eapply IH; eassumption.
 Qed.
 
+(* the same for the exec stack, whose values are the program: once the program decision is made (a program was
+   loaded, or "no program" was chosen) the general size - the only way to size the exec stack - can no longer be set,
+   and the decision cannot be made again *)
+Lemma tstep_exec_data t c t' : tstep t c = Some t' -> t_exec t = WSD ->
+  t_exec t' = WSD /\ is_maxall c = false /\ is_program c = false.
+Proof.
+  intros E Hd. destruct (tstep_exec _ _ _ E) as [H|[(Hm & _ & Hn)|(Hp & Hw & _)]]; [|congruence|congruence].
+  split; [congruence|]. destruct c; cbn in E |- *; try (split; reflexivity).
+  - rewrite Hd in E. cbn in E. discriminate.
+  - rewrite Hd in E. discriminate.
+  - rewrite Hd in E. discriminate.
+Qed.
+Theorem no_resize_after_program n a p b :
+  typed n (a ++ p :: b) = true -> is_program p = true ->
+  forall c, In c b -> is_maxall c = false /\ is_program c = false.
+Proof.
+  unfold typed. rewrite trun_app. destruct (trun (tinit n) a) as [t|]; [|discriminate].
+  cbn [trun]. destruct (tstep t p) as [t1|] eqn:E; [|discriminate]. intros Hr Hp.
+  assert (Hd : t_exec t1 = WSD).
+  { destruct (tstep_exec _ _ _ E) as [H|[(Hm & _)|(_ & _ & H)]]; [|destruct p; discriminate|exact H].
+    destruct p; try discriminate; cbn in E; destruct (t_exec t); try discriminate; injection E as <-; reflexivity. }
+  clear E Hp. revert t1 Hd Hr. induction b as [|c0 b IH]; intros t1 Hd Hr c Hc; [destruct Hc|].
+  cbn [trun] in Hr. destruct (tstep t1 c0) as [t2|] eqn:E; [|discriminate].
+  destruct (tstep_exec_data _ _ _ E Hd) as (Hd2 & Hm & Hp).
+  destruct Hc as [<-|Hc]; [split; assumption|]. eapply IH; eassumption.
+Qed.
+
 Theorem typed_prefix_closed n a b : typed n (a ++ b) = true -> typed n a = true.
 Proof. unfold typed. rewrite trun_app. destruct (trun (tinit n) a); [reflexivity|discriminate]. Qed.
 
